@@ -211,9 +211,10 @@ Theorem c20_gate_413 : forall g r z, internal g = true -> 0 < max_len g -> r_cl 
 Proof.
   intros g r z Hi Hm Hc Hz. unfold gate. destruct (r_pref r); eauto.
   destruct (r_method r); simpl; eauto. destruct (r_wk r); eauto.
-  rewrite Hi, Hc. assert (E1 : (z =? 0) = false) by (apply Z.eqb_neq; lia).
+  rewrite Hi, Hc. assert (E0 : (z <? 0) = false) by (apply Z.ltb_ge; lia).
+  assert (E1 : (z =? 0) = false) by (apply Z.eqb_neq; lia).
   assert (E2 : (0 <? max_len g) = true) by (apply Z.ltb_lt; lia).
-  assert (E3 : (max_len g <? z) = true) by (apply Z.ltb_lt; lia). rewrite E1, E2, E3. simpl. right. reflexivity.
+  assert (E3 : (max_len g <? z) = true) by (apply Z.ltb_lt; lia). rewrite E0, E1, E2, E3. simpl. right. reflexivity.
 Qed.
 
 (* exactly when 413 is answered *)
@@ -226,10 +227,12 @@ Proof.
   - destruct (r_pref r); try discriminate. destruct (r_method r); simpl; try discriminate.
     destruct (r_wk r); try discriminate. destruct (internal g); [|destruct (r_auth r); discriminate].
     destruct (r_cl r) as [|z|]; try (destruct (r_auth r); discriminate).
+    destruct (z <? 0); [discriminate|].
     destruct (negb (z =? 0) && (0 <? max_len g) && (max_len g <? z)) eqn:E; [|destruct (r_auth r); discriminate].
     intros _. apply andb_true_iff in E. destruct E as [E E3]. apply andb_true_iff in E. destruct E as [E1 E2].
     apply Z.ltb_lt in E2, E3. repeat split; auto. exists z. auto.
   - intros [H1 [H2 [H3 [H4 [z [H5 [H6 H7]]]]]]]. rewrite H1, H2, H3, H4, H5. simpl.
+    assert (E0 : (z <? 0) = false) by (apply Z.ltb_ge; lia). rewrite E0.
     assert (E1 : (z =? 0) = false) by (apply Z.eqb_neq; lia).
     assert (E2 : (0 <? max_len g) = true) by (apply Z.ltb_lt; lia).
     assert (E3 : (max_len g <? z) = true) by (apply Z.ltb_lt; lia). rewrite E1, E2, E3. reflexivity.
@@ -239,32 +242,43 @@ Qed.
 Theorem c20_gate_dispatch_exact : forall g r,
   gate g r = GDispatch <->
   r_pref r = PrefOk /\ r_method r = true /\ r_wk r = WkNone /\ r_auth r <> AuthFail /\
-  (internal g = true -> r_cl r <> ClBad /\ forall z, r_cl r = ClInt z -> z = 0 \/ max_len g <= 0 \/ z <= max_len g).
+  (internal g = true -> r_cl r <> ClBad /\
+     forall z, r_cl r = ClInt z -> 0 <= z /\ (z = 0 \/ max_len g <= 0 \/ z <= max_len g)).
 Proof.
   intros g r. unfold gate. split.
   - destruct (r_pref r); try discriminate. destruct (r_method r); simpl; try discriminate.
     destruct (r_wk r); try discriminate. destruct (internal g).
     + destruct (r_cl r) as [|z|]; try discriminate.
       * destruct (r_auth r); try discriminate; intros _; repeat split; try discriminate; intros; discriminate.
-      * destruct (negb (z =? 0) && (0 <? max_len g) && (max_len g <? z)) eqn:E; [discriminate|].
+      * destruct (z <? 0) eqn:E0; [discriminate|]. apply Z.ltb_ge in E0.
+        destruct (negb (z =? 0) && (0 <? max_len g) && (max_len g <? z)) eqn:E; [discriminate|].
         assert (Hz : z = 0 \/ max_len g <= 0 \/ z <= max_len g).
         { apply andb_false_iff in E. destruct E as [E|E]; [apply andb_false_iff in E; destruct E as [E|E]|].
           - left. apply negb_false_iff in E. apply Z.eqb_eq. exact E.
           - right. left. apply Z.ltb_ge. exact E.
           - right. right. apply Z.ltb_ge. exact E. }
         destruct (r_auth r); try discriminate; intros _; repeat split; try discriminate;
-          intros z0 Hz0; inversion Hz0; subst; exact Hz.
+          try (match goal with H : ClInt _ = ClInt _ |- _ => inversion H; subst end; assumption).
     + destruct (r_auth r); try discriminate; intros _; repeat split; try discriminate; intro; discriminate.
   - intros [H1 [H2 [H3 [H4 H5]]]]. rewrite H1, H2, H3. simpl. destruct (internal g).
     + destruct (H5 eq_refl) as [H6 H7]. destruct (r_cl r) as [|z|]; [| |contradiction].
       * destruct (r_auth r); auto; contradiction.
-      * replace (negb (z =? 0) && (0 <? max_len g) && (max_len g <? z)) with false.
+      * destruct (H7 z eq_refl) as [H8 H9]. replace (z <? 0) with false by (symmetry; apply Z.ltb_ge; exact H8).
+        replace (negb (z =? 0) && (0 <? max_len g) && (max_len g <? z)) with false.
         -- destruct (r_auth r); auto; contradiction.
-        -- symmetry. destruct (H7 z eq_refl) as [E|[E|E]].
+        -- symmetry. destruct H9 as [E|[E|E]].
            ++ subst. reflexivity.
            ++ apply andb_false_iff. left. apply andb_false_iff. right. apply Z.ltb_ge. exact E.
            ++ apply andb_false_iff. right. apply Z.ltb_ge. exact E.
     + destruct (r_auth r); auto; contradiction.
+Qed.
+
+(* with the negative-length fix: whatever reaches a handler of the internal server declares a length within the limit *)
+Theorem c20_size_bound_strong : forall g r z, internal g = true -> r_cl r = ClInt z -> gate g r = GDispatch ->
+  0 <= z /\ (0 < max_len g -> z <= max_len g).
+Proof.
+  intros g r z Hi Hc Hg. apply c20_gate_dispatch_exact in Hg. destruct Hg as [_ [_ [_ [_ H]]]].
+  destruct (H Hi) as [_ H2]. destruct (H2 z Hc) as [H3 H4]. split; [exact H3|]. intro Hm. lia.
 Qed.
 
 (* in the server: the thread answers an oversized request itself; the handler is not entered *)
